@@ -119,7 +119,8 @@ Proof. exact roundtrip_examples. Qed.
 Print Assumptions C02_roundtrip_examples.
 
 (* ---- 4. "every tree built through the API": trees reached through histories of deep copies, in-place
-   setters (set_double / set_int64 / set_uint64 / set_boolean / set_string), child replacement and deletion *)
+   setters (set_double / set_int64 / set_uint64 / set_boolean / set_string), opaque userdata, serializer resets,
+   child replacement and deletion *)
 Theorem C02_history_valid : forall fmt17, fmt17_ok fmt17 -> forall fl hs v,
   color fl = false -> tree_ok v -> Forall hop_arg_ok hs ->
   exists s, stx_ok s = true /\ render s = serialize fmt17 fl 0 (hist_apply hs v) /\ denotes fmt17 (value s) (hist_apply hs v).
@@ -143,6 +144,17 @@ Theorem C02_copy_prints_the_same : forall fmt17 fl level v,
   serialize fmt17 fl level (hop_apply HCopy v) = serialize fmt17 fl level v.
 Proof. exact copy_prints_the_same. Qed.
 Print Assumptions C02_copy_prints_the_same.
+
+(* opaque application userdata (json_object_set_userdata, the data of json_object_set_serializer(NULL, data, del))
+   never reaches the text, and a serializer reset prints the default %.17g text of the value *)
+Theorem C02_userdata_is_opaque : forall fmt17 fl level p v,
+  serialize fmt17 fl level (hop_apply (HSetUserdata p) v) = serialize fmt17 fl level v.
+Proof. exact userdata_is_opaque. Qed.
+Print Assumptions C02_userdata_is_opaque.
+Theorem C02_reset_prints_default : forall fmt17 fl level b t,
+  serialize fmt17 fl level (reset_serializer_node (JDouble b t)) = double_text fmt17 fl b.
+Proof. exact reset_prints_default. Qed.
+Print Assumptions C02_reset_prints_default.
 
 (* non-vacuity of the guard and of the oracle hypothesis: the example oracle satisfies fmt17_ok on the
    example's doubles, and the example tree satisfies node_ok *)
